@@ -254,7 +254,7 @@ def units():
         Unit("set_link_exponents[fix_psi=False]", F + "MeshOperators.set_link_exponents", c10.run_free, props=["C06", "C10"], timeout=900),
         Unit("step_at_pinned_site[terminal_psi=0]", "tdgl.solver.solver:TDGLSolver.solve_for_psi_squared", run_step_zero, props=["C06"], timeout=300),
         Unit("Device.terminal_info", "tdgl.device.device:Device.terminal_info", run_terminal_info, props=["C06"], timeout=300),
-        Unit("TDGLSolver.__init__[two solvers on one mesh]", "tdgl.solver.solver:TDGLSolver.__init__", lambda m=None: ic.run_init(m, prefixes=("C06.",), again=True), props=["C06"], timeout=900),
+        Unit("TDGLSolver.__init__[two solvers on one mesh]", "tdgl.solver.solver:TDGLSolver.__init__", lambda m=None: ic.run_init(m, prefixes=("C06.",), again=True, narrow=dict(adaptive=True, include_screening=False)), props=["C06"], timeout=900),
         Unit("step_at_pinned_site[terminal_psi!=0]", "tdgl.solver.solver:TDGLSolver.solve_for_psi_squared", run_step_nonzero, props=["C06"], timeout=300),
             _h.bounded_unit("pinned sites of real devices [bounded]", "Device.terminal_info / TDGLSolver (real runs)", "C06", _bounded_quick, "terminal_sites_follow_the_device_and_each_solver_pins_its_own", timeout=900)]
 
